@@ -254,40 +254,8 @@ def rules(ctx):
                          "cache can fall below the true variables" % (obj, f))
 
     # ------------------------------------------------------------ R14.4
+    registration_parity(ctx, 'R14.4')
     bo = P.func('BO.__setitem__')
-    g1 = registration_profile(ctx, bo, '_mapping', R.self_name(bo))
-    g2 = registration_profile(ctx, fn, '_variables', selfn)
-    if not g1 or not g2:
-        raise AnalysisError("R14.4: registration sites not found (G1 %d, G2 %d)" % (len(g1), len(g2)))
-    ref_guards, ref_dom = g2[0][1], g2[0][2]
-    for node, guards, dom in g1:
-        ok = guards == ref_guards and dom == ref_dom and dom != '?'
-        ctx.inst('R14.4', bo, node, ok,
-                 "mapping registration under guards %s over the %s key, as the variable cache"
-                 % (sorted(guards), dom) if ok else
-                 "label enters the mapping under guards %s over the %s key, but enters the variable "
-                 "cache under guards %s over the %s key: mapping and num_binary_variables can diverge"
-                 % (sorted(guards), dom, sorted(ref_guards), ref_dom))
-    for node, guards, dom in g2:
-        ctx.inst('R14.4', fn, node, dom == 'squashed' and 'value' in guards,
-                 "variable registration over the squashed key under `if value`"
-                 if dom == 'squashed' and 'value' in guards else
-                 "variable cache registers labels of the %s key under guards %s" % (dom, sorted(guards)))
-    # the BO layer must call the Matrix layer (super().__setitem__) on every path
-    gbo = cfg_of(bo.node)
-    sup = [enclosing_stmt(c) for c in calls_in(bo.node, '__setitem__')
-           if isinstance(c.func.value, ast.Call) and is_name(c.func.value.func, 'super')]
-    ctx.inst('R14.4', bo, 'super().__setitem__', bool(sup) and gbo.must_pass_to_exit(ENTRY, set(sup)),
-             "Matrix layer invoked on every path")
-    # each labelled class resolves __setitem__ to BO then PUBOMatrix
-    for c in LABELLED:
-        a = P.lookup_method(c, '__setitem__')
-        b = P.lookup_method(c, '__setitem__', after='BO')
-        ok = isinstance(a, FuncInfo) and a.qual == 'BO.__setitem__' and isinstance(b, FuncInfo) \
-            and b.qual == 'PUBOMatrix.__setitem__'
-        ctx.inst('R14.4', (P.cls(c).module.relpath, c), '%s.__setitem__ chain' % c, ok,
-                 "BO.__setitem__ -> PUBOMatrix.__setitem__" if ok else
-                 "__setitem__ chain of %s is %s -> %s" % (c, getattr(a, 'qual', a), getattr(b, 'qual', b)))
 
     # ------------------------------------------------------------ R14.5
     coupled_group_instances(ctx, 'R14.5')
@@ -470,9 +438,54 @@ def refresh_order(ctx, rid):
     okr = False
     if copies and reinits:
         cname = src(copies[0].targets[0])
-        okr = any(c.args and src(c.args[-1]) == cname for _, c in reinits) and \
+        okr = any(c.args and src(c.args[-1]) == cname and isinstance(c.func, ast.Attribute) and is_name(c.func.value, selfn_)
+                  for _, c in reinits) and \
             all(g.dominates([x for x in clears], n) for n, _ in reinits)
     ctx.inst(rid, rf, reinits[0][0] if reinits else '__init__', okr,
              "re-initialised from the snapshot after the clear" if okr else
-             "re-initialisation does not take the snapshot as its argument / precedes the clear")
+             "re-initialisation is not `self.__init__(snapshot)` after the clear (a fixed class's __init__ skips the "
+             "other parents' caches, e.g. the label mapping)")
+
+
+
+def registration_parity(ctx, rid):
+    """R14.4: a label enters the mapping under the same guard and iteration domain as it enters the variable cache."""
+    P, R = ctx.prog, ctx.res
+    fn = P.func('PUBOMatrix.__setitem__')
+    selfn = R.self_name(fn)
+    # ------------------------------------------------------------ R14.4
+    bo = P.func('BO.__setitem__')
+    g1 = registration_profile(ctx, bo, '_mapping', R.self_name(bo))
+    g2 = registration_profile(ctx, fn, '_variables', selfn)
+    if not g1 or not g2:
+        raise AnalysisError("R14.4: registration sites not found (G1 %d, G2 %d)" % (len(g1), len(g2)))
+    ref_guards, ref_dom = g2[0][1], g2[0][2]
+    for node, guards, dom in g1:
+        ok = guards == ref_guards and dom == ref_dom and dom != '?'
+        ctx.inst(rid, bo, node, ok,
+                 "mapping registration under guards %s over the %s key, as the variable cache"
+                 % (sorted(guards), dom) if ok else
+                 "label enters the mapping under guards %s over the %s key, but enters the variable "
+                 "cache under guards %s over the %s key: mapping and num_binary_variables can diverge"
+                 % (sorted(guards), dom, sorted(ref_guards), ref_dom))
+    for node, guards, dom in g2:
+        ctx.inst(rid, fn, node, dom == 'squashed' and 'value' in guards,
+                 "variable registration over the squashed key under `if value`"
+                 if dom == 'squashed' and 'value' in guards else
+                 "variable cache registers labels of the %s key under guards %s" % (dom, sorted(guards)))
+    # the BO layer must call the Matrix layer (super().__setitem__) on every path
+    gbo = cfg_of(bo.node)
+    sup = [enclosing_stmt(c) for c in calls_in(bo.node, '__setitem__')
+           if isinstance(c.func.value, ast.Call) and is_name(c.func.value.func, 'super')]
+    ctx.inst(rid, bo, 'super().__setitem__', bool(sup) and gbo.must_pass_to_exit(ENTRY, set(sup)),
+             "Matrix layer invoked on every path")
+    # each labelled class resolves __setitem__ to BO then PUBOMatrix
+    for c in LABELLED:
+        a = P.lookup_method(c, '__setitem__')
+        b = P.lookup_method(c, '__setitem__', after='BO')
+        ok = isinstance(a, FuncInfo) and a.qual == 'BO.__setitem__' and isinstance(b, FuncInfo) \
+            and b.qual == 'PUBOMatrix.__setitem__'
+        ctx.inst(rid, (P.cls(c).module.relpath, c), '%s.__setitem__ chain' % c, ok,
+                 "BO.__setitem__ -> PUBOMatrix.__setitem__" if ok else
+                 "__setitem__ chain of %s is %s -> %s" % (c, getattr(a, 'qual', a), getattr(b, 'qual', b)))
 
